@@ -61,6 +61,8 @@ def register(add, tu, repo, bdir):
     add("ttl_always", "Z -> Z", lambda: first(_ttl_assignments(M(), "always_expect_")), "src/mocks.c:always_expect_")
     add("ttl_never", "Z -> Z", lambda: first(_ttl_assignments(M(), "never_expect_")), "src/mocks.c:never_expect_")
     add("vector_step", "Z", lambda: _vector_step(tu("src/vector.c")), "src/vector.c:increase_space")
+    import srcfacts_c20
+    srcfacts_c20.register(add, tu)
     register_constraints(add, tu)
     register_ctors(add, tu)
     register_legacy(add, tu, repo)
